@@ -7,6 +7,7 @@ package main
 
 import (
 	"bufio"
+	"bytes"
 	"encoding/hex"
 	"encoding/json"
 	"flag"
@@ -221,6 +222,15 @@ func runEmbedCase(c embedCase, sw *openapi3.Swagger, dir string) (o embedObs) {
 	os.MkdirAll(dir, 0o755)
 	g := goag.Generator{GenAPIHandler: true, DoNotEdit: true}
 	var err error
+	if !c.ViaFile && len(c.ID) > 0 && c.ID[len(c.ID)-1]%2 == 0 {
+		// every other direct case regenerates in place over an earlier run whose content differs in
+		// white space only (re-indented, re-wrapped, a blank line more): white space is content
+		prior := append(bytes.ReplaceAll(bytes.ReplaceAll(c.Content, []byte(" "), []byte("\t")), []byte("\n"), []byte("\n\n")), '\n')
+		func() {
+			defer func() { recover() }()
+			g.Generate(sw, filepath.Join(dir, "out"), "p", prior, "openapi.yaml", "", generator.Config{})
+		}()
+	}
 	if c.ViaFile {
 		specFile := filepath.Join(dir, "openapi."+c.Ext)
 		if err = os.WriteFile(specFile, c.Content, 0o644); err != nil {
